@@ -174,9 +174,24 @@ func (g *gen) evalParse() (evalResult, map[string]string) {
 		res["isAlphaNumeric.canonical"] = ok`
 	items["unescapes"] = "\t\tm := map[string]int{}\n\t\tfor k, v := range unescapes {\n\t\t\tm[strconv.Itoa(int(k))] = int(v)\n\t\t}\n\t\tres[\"unescapes\"] = m"
 	// parseAutoescape: evaluated on every string literal of parse.go (and ""); a panic (t.errorf) = rejected
+	// ... and on perturbations of each (other case, blanks around it, one more or one fewer character), so that a
+	// reading that is more liberal than exact comparison (case folding, trimming, prefixes) shows in the table
 	var cands []string
+	seenCand := map[string]bool{}
 	for _, s := range g.fileStringLits(parserRel) {
-		cands = append(cands, strconv.Quote(s))
+		if len(s) > 40 {
+			continue // message texts
+		}
+		vars := []string{s, strings.ToUpper(s), strings.Title(s), " " + s, s + " ", s + "x", "\t" + s + "\n"}
+		if len(s) > 1 {
+			vars = append(vars, s[:len(s)-1], s[1:])
+		}
+		for _, v := range vars {
+			if !seenCand[v] {
+				seenCand[v] = true
+				cands = append(cands, strconv.Quote(v))
+			}
+		}
 	}
 	items["parseAutoescape"] = `		m := map[string]int{}
 		for _, s := range []string{` + strings.Join(cands, ", ") + `} {
